@@ -69,13 +69,19 @@ def rule_key_complete(ctx: Ctx) -> None:  # noqa: C901, PLR0912, PLR0915
     ops = _flat_or(merged) if merged is not None else []
     kinds = [_kind_of_operand(o) for o in ops]
     supplied = {o.id for o, k in zip(ops, kinds) if k == "supplied"}
-    # ---- the values hashed have the precedence of the actual call: defaults < supplied < bound
-    if set(kinds) >= {"defaults", "supplied", "bound"} and "?" not in kinds:
-        order_ok = kinds.index("defaults") < kinds.index("supplied") < kinds.index("bound")
-        ctx.add("1-key-complete", kf, call, order_ok, "key values come from a fresh merge defaults | supplied | bound (the precedence of the call)" if order_ok else
-                f"the key values are merged as {kinds}: a value that the call does not use decides the key (the call takes bound over supplied over defaults)", key="merge")
+    # ---- the key is made of the values of the ROOT arguments - parameters of `func` itself or of functions UPSTREAM of it.  What
+    # those functions receive is the supplied value, else the default.  A parameter that `func` binds is not one of its root
+    # arguments, so `func._bound` has nothing to say here: merged in above the supplied values it replaces the value of a
+    # same-named root argument that an upstream function consumes (the call with b=3 is served the entry of b=2)
+    if {"defaults", "supplied"} <= set(kinds) and "?" not in kinds:
+        order_ok = kinds.index("defaults") < kinds.index("supplied")
+        overriding = "bound" in kinds and (kinds.index("bound") > kinds.index("supplied") or kinds.index("bound") > kinds.index("defaults"))
+        ctx.add("1-key-complete", kf, call, order_ok and not overriding, "key values come from a fresh merge defaults | supplied (what the functions that consume the root arguments receive)" if order_ok and not overriding else
+                (f"the key values are merged as {kinds}: the bound values of the cached function override the supplied value (or the default) of a same-named root argument, which only UPSTREAM functions consume - "
+                 "two calls that differ in that argument share one entry and the second is served the first one's result" if overriding else
+                 f"the key values are merged as {kinds}: a default overrides the value the caller supplied"), key="merge")
     else:
-        ctx.add("1-key-complete", kf, call, None, f"UNDECIDED: key values `{norm(merged)[:80] if merged is not None else '?'}` are not a recognised merge of defaults, supplied and bound values", key="merge")
+        ctx.add("1-key-complete", kf, call, None, f"UNDECIDED: key values `{norm(merged)[:80] if merged is not None else '?'}` are not a recognised merge of defaults and supplied values", key="merge")
     # ---- supplied intermediates disable the key
     scopes = [f for f in Scope(ctx, run_).funcs if f.module.name == run_.module.name]
     good = bad_whole = False
